@@ -1,6 +1,7 @@
 import CogentModel.Json
 import CogentModel.Model.View
 import CogentModel.Model.FeatureView
+import CogentModel.Model.FeatureSeq
 import CogentModel.Spec.FeatureView
 open CogentModel CogentModel.View CogentModel.FeatureView
 
@@ -42,6 +43,16 @@ def handle (cmd : String) (j : J) : Except String J :=
       let (ps, comp) := slicePositions v f
       pure (J.obj [("spans", J.arr (f.spans.map mspanJ)), ("reversed", J.bool f.reversed),
                    ("pos", J.arr (ps.map J.num)), ("comp", J.bool comp)])
+  | "getslice" => do
+    -- residue-level model: `feature.get_slice()` on a DNA sequence wrapper
+    let v ← parseView (← j.get "view")
+    let parent ← (← j.get "parent").toStr
+    let comp : Char → Char := fun c =>
+      if c = 'A' then 'T' else if c = 'T' then 'A' else if c = 'C' then 'G' else if c = 'G' then 'C' else c
+    let s : SeqWrap.Seq := { parent := parent.toList, v := v, nucleic := true }
+    match featureOnView v (← (← j.get "minus").toBool) (← parseSpans (← j.get "spans")) with
+    | .error e => pure (errJ e)
+    | .ok f => pure (J.str (String.ofList (getSlice comp s f)))
   | "denote" => do
     let spans ← parseSpans (← j.get "spans")
     let (ps, comp) := FeatureSpec.denote spans (← (← j.get "minus").toBool) (← (← j.get "p0").toInt) (← (← j.get "p1").toInt)
